@@ -22,6 +22,14 @@ and, implementation against implementation, that a failing command repeated at
 once raises the same error.  modulestack / module cache / load counters are
 projected too, as drift diagnostics only.
 
+Round 2: commands that pass a caller environment to interpret (a fresh one,
+one the caller keeps and uses again - with every interpreter -, a child of the
+session); the cfg Session_pinnedenv (DetachCallerEnv = FALSE, the pinned
+interpret) must give TLC a counterexample.  When the environment chain of an
+interpreter has become cyclic the harness records what a read of an unknown
+name and ls() do (both end, by the host's recursion limit) and abandons the
+branch: require / interpret would walk the cycle for ever.
+
 This module also hosts the code shared with C11 (harness/c11.py).
 """
 import gc
@@ -43,9 +51,16 @@ import_ckl()
 from ckl.interpreter import Interpreter  # noqa: E402
 from ckl.errors import CklRuntimeError, CklSyntaxError  # noqa: E402
 from ckl import values as V  # noqa: E402
+from ckl.functions import get_none_environment  # noqa: E402
 
 NPROC = 16
-CALL_TIMEOUT = 300      # seconds for one interpret call (they take microseconds)
+CALL_TIMEOUT = 120      # seconds for one interpret call (they take microseconds)
+MODEL_BUNDLED = {"sys", "stat"}     # SessionOps.Bundled: bundled modules the spec knows
+ENV_OPS = {"envcall", "envfail", "envread"}
+
+
+class Abandon(Exception):
+    """The interpreters of this branch cannot be used any further."""
 
 
 def _alarm(signum, frame):
@@ -82,6 +97,12 @@ def require_src(d, form):
         return f"require {d} as a_{d}"
     if form == "imp":
         return f"require {d} import [{d}_get as i_{d}_get, _{d}_st as i_{d}_st, {d}_top]"
+    if form == "imp0":
+        return f"require {d} import []"
+    if form == "impd":
+        return f"require {d} import [{d}_get as i_{d}_get, {d}_get as j_{d}_get, {d}_top]"
+    if form != "unq":
+        raise MachineryError("unknown require form " + form)
     return f"require {d} unqualified"
 
 
@@ -146,11 +167,18 @@ def cmd_source(c, binding=None):
         return f"{n}->{n}_bump()"
     if op == "require":
         return require_src(c["id"], c["form"])
+    if op == "envcall":
+        return f"def ev = 4; {n}"
+    if op == "envfail":
+        return "def ev = 4; error 'boom'"
+    if op == "envread":
+        return n
     raise MachineryError("unknown command " + op)
 
 
 def cmd_label(c, binding=None):
-    return c["i"] + ": " + cmd_source(c, binding)
+    where = f"<in {c['id']} caller environment> " if c["op"] in ENV_OPS else ""
+    return c["i"] + ": " + where + cmd_source(c, binding)
 
 
 # ---------------------------------------------------------------- sessions
@@ -166,6 +194,10 @@ class Sessions:
             if BUNDLED is None:
                 BUNDLED = set(it.base_environment.modules.keys())
             self.it[i] = it
+        # caller environments: one the caller keeps (and passes to every
+        # interpreter), one child of each session
+        self.kept = get_none_environment()
+        self.child = {i: it.environment.newEnv() for i, it in self.it.items()}
         if moddir is not None:
             self.configure(moddir)
 
@@ -180,13 +212,31 @@ class Sessions:
         for it in self.it.values():
             it.interpret("def secret = 1", "setup")
 
-    def run(self, i, src):
+    def caller_env(self, c):
+        """The environment argument of interpret for command c (None: none)."""
+        if c["op"] not in ENV_OPS:
+            return None
+        if c["id"] == "fresh":
+            return get_none_environment()
+        return self.kept if c["id"] == "kept" else self.child[c["i"]]
+
+    def cyclic(self):
+        """Does the environment chain of some interpreter never end?"""
+        for it in self.it.values():
+            e, hops = it.environment, 0
+            while e is not None:
+                e, hops = e.parent, hops + 1
+                if hops > 4 * len(self.it) + 4:
+                    return True
+        return False
+
+    def run(self, i, src, env=None):
         """-> (abstract outcome tuple, raw identity of an error)"""
         it = self.it[i]
         try:
             signal.alarm(CALL_TIMEOUT)          # a call that never returns is an outcome too
             try:
-                r = it.interpret(src, "cmd")
+                r = it.interpret(src, "cmd") if env is None else it.interpret(src, "cmd", env)
             finally:
                 signal.alarm(0)
         except CklRuntimeError as e:
@@ -261,7 +311,7 @@ def value_cat(name):
     return "probe" if name.endswith(("_sees", "_top")) else "value"
 
 
-def observe(sess, i, want):
+def observe(sess, i, want, names_only=False):
     """Compare the scope of interpreter i with the predicted observation
     `want` (STATE.obs[i]).  -> list of (category, detail)."""
     it = sess.it[i]
@@ -287,6 +337,9 @@ def observe(sess, i, want):
         diffs.append(("names", f"unexpected name {n} in the scope of {i}"))
     for n in sorted(exp - lang):
         diffs.append(("names", f"name {n} is missing from the scope of {i}"))
+    if names_only:
+        return diffs
+    shown = {}          # module instance (spec) -> [(name, module object)]
     for n in sorted(exp & api):
         w = want[n]
         v = it.environment.map[n]
@@ -295,6 +348,9 @@ def observe(sess, i, want):
             diffs.append((value_cat(n), f"{i}: {n} is {got} but should be {(w['v']['k'], w['v']['r'])}"))
             continue
         if w["v"]["k"] == "mod":
+            shown.setdefault(w.get("of", ""), []).append((n, v))
+            if w.get("open"):
+                continue            # a bundled module: its members are not modelled
             mem = w["mem"] if w["mem"] != [] else {}
             have = set(v.value.keys())
             for k in sorted(have - set(mem)):
@@ -305,6 +361,16 @@ def observe(sess, i, want):
                 g = render_value(sess, i, f"{n}->{k}", v.value[k], mem[k]["k"])
                 if g[:2] != (mem[k]["k"], mem[k]["r"]):
                     diffs.append((value_cat(k), f"{i}: {n}->{k} is {g} but should be {(mem[k]['k'], mem[k]['r'])}"))
+    # all importers share the single instance: module objects of one module show the very same members
+    for of, objs in sorted(shown.items()):
+        n0, v0 = objs[0]
+        for n1, v1 in objs[1:]:
+            if set(v0.value.keys()) != set(v1.value.keys()):
+                continue            # reported above as members
+            other = sorted(k for k in v0.value if v0.value[k] is not v1.value[k])
+            if other:
+                diffs.append(("instance", f"{i}: module objects {n0} and {n1} of module {of} do not share "
+                                          f"one instance: members {other[:3]} are different objects"))
     return diffs
 
 
@@ -318,13 +384,31 @@ def diagnostics(sess, i, key, loadcap):
     stack = list(base.modulestack)
     if stack != list(key["k"][i]):
         d.append(("diag:stack", f"{i}: modulestack {stack} but spec {key['k'][i]}"))
-    loaded = sorted(set(base.modules.keys()) - BUNDLED)
+    # bundled modules the spec knows: one cache entry per file whatever the
+    # spelling; an evaluation of the file = a distinct module environment
+    inst = {}
+    for k, env in base.modules.items():
+        if k.lower() in MODEL_BUNDLED:
+            inst.setdefault(k.lower(), {})[id(env)] = k
+    loaded = sorted((set(base.modules.keys()) - BUNDLED - set(sum((list(x.values()) for x in inst.values()), [])))
+                    | set(inst))
     wantm = key["m"][i] if key["m"][i] != [] else {}
     if loaded != sorted(wantm):
         d.append(("diag:cache", f"{i}: module cache {loaded} but spec {sorted(wantm)}"))
+    if "e" in key and ("ev" in sess.kept.map) != bool(key["e"]):
+        d.append(("diag:callerenv", f"the caller's environment holds {sorted(sess.kept.map)}, spec ev={key['e']}"))
+    if sess.kept.parent is not None:
+        d.append(("diag:callerenv", "the caller's environment is still attached after the call"))
     log = [x.value for x in base.map["loadlog"].value]
     wantl = key["l"][i] if key["l"][i] != [] else {}
-    for m in sorted(set(log) | set(wantl)):
+    for m in sorted(inst):
+        n = len(inst[m])
+        if n > 1:
+            d.append(("loadonce", f"{i}: the top level of bundled module {m} ran {n} times "
+                                  f"(instances cached as {sorted(inst[m].values())})"))
+        elif min(n, loadcap) != wantl.get(m, 0):
+            d.append(("diag:loads", f"{i}: bundled module {m} has {n} instances, spec {wantl.get(m, 0)}"))
+    for m in sorted((set(log) | set(wantl)) - MODEL_BUNDLED):
         n = log.count(m)
         if n > 1 and (m in wantm or m in loaded):
             d.append(("loadonce", f"{i}: the top level of module {m} ran {n} times"))
@@ -393,9 +477,11 @@ class Graph:
 
 def init_id(g, interps):
     for i, k in enumerate(g.key):
-        if k["n"] == 0 and k["g"] == [] and all(
-                (k["s"][x] if k["s"][x] != [] else {}).keys() == {"secret"} and k["m"][x] in ([], {})
-                and k["k"][x] == [] and k["l"][x] in ([], {}) for x in interps):
+        if k["n"] == 0 and k["g"] == [] and not k.get("e") and all(
+                (k["s"][x] if k["s"][x] != [] else {}).keys() == {"secret"}
+                and set(k["m"][x] if k["m"][x] != [] else {}) <= MODEL_BUNDLED      # start-up modules
+                and k["k"][x] == [] and set(k["l"][x] if k["l"][x] != [] else {}) <= MODEL_BUNDLED
+                for x in interps):
             return i
     raise MachineryError("initial state not exported")
 
@@ -494,14 +580,20 @@ class Walker:
                 continue
 
             def body(c=c, o=o, q=q, expand=expand, tag2=tag2):
-                path2, prev2 = self.edge(sess, sid, c, o, q, path, prev)
+                try:
+                    path2, prev2 = self.edge(sess, sid, c, o, q, path, prev)
+                except Abandon:
+                    return
                 if expand:
                     self.children(sess, q, depth + 1, path2, prev2, tag2)
             self.spawn(asyncs, body)
         cur = sid
         inl = [it for it in items if it[5]]
         for k, (c, o, q, expand, tag2, _) in enumerate(inl):
-            path, prev = self.edge(sess, cur, c, o, q, path, prev)
+            try:
+                path, prev = self.edge(sess, cur, c, o, q, path, prev)
+            except Abandon:
+                break
             cur = q
             depth += 1
             if expand:
@@ -517,11 +609,13 @@ class Walker:
         g = self.g
         b = g.binding(sid, c)
         src = cmd_source(c, b)
-        got, raw = sess.run(c["i"], src)
+        got, raw = sess.run(c["i"], src, sess.caller_env(c))
         path2 = path + [[c, o, q, b]]
-        findings = compare_outcome(c["i"] + ": " + src, got, raw, want_outcome(o), c, prev)
+        findings = compare_outcome(cmd_label(c, b), got, raw, want_outcome(o), c, prev)
         n = 1 + self.check_state(sess, q, path2, findings)
         self.emit({"t": "n", "edges": 1, "evals": n})
+        if sess.cyclic():
+            raise Abandon()
         return path2, (c, raw)
 
     def check_state(self, sess, sid, path, findings):
@@ -531,14 +625,33 @@ class Walker:
         obs = g.obs.get(sid)
         if obs is None:
             raise MachineryError("no STATE record for a reached state")
-        for i in self.interps:
-            findings += observe(sess, i, obs[i])
-            n += 2 + len(obs[i])
-            findings += diagnostics(sess, i, g.key[sid], self.loadcap)
+        findings += state_findings(sess, self.interps, obs, g.key[sid], self.loadcap)
+        n += sum(2 + len(obs[i]) for i in self.interps)
         for cat, what in findings:
             self.emit({"t": "f", "cat": cat, "what": what, "obs": obs, "key": g.key[sid],
                        "loadcap": self.loadcap, "path": [[p[0], p[1], p[3]] for p in path]})
         return n
+
+
+def state_findings(sess, interps, obs, key, loadcap):
+    """Every interpreter's scope and diagnostics against the spec state."""
+    findings = []
+    if sess.cyclic():
+        # what the language shows of it, with calls that end: a read of an
+        # unknown name (the model's `read` of an undefined name) and ls()
+        for i in interps:
+            got, _ = sess.run(i, "nosuch_c10")
+            if got[:2] != ("err", "undef"):
+                findings.append(("outcome-cls", f"{i}: reading an unknown name: outcome {got} but the spec "
+                                                f"predicts a runtime error (Symbol not defined)"))
+            findings += observe(sess, i, obs[i], names_only=True)
+        findings.append(("diag:chain", "the environment chain of an interpreter is cyclic"))
+        return findings
+    for i in interps:
+        findings += observe(sess, i, obs[i])
+        if key is not None:
+            findings += diagnostics(sess, i, key, loadcap)
+    return findings
 
 
 def compare_outcome(label, got, raw, want, c, prev):
@@ -716,6 +829,17 @@ def check_pinned(run):
     return re.findall(r'ReqStart\(\[op \|-> "require", i \|-> "i1", n \|-> "", v \|-> 0, id \|-> "(\w+)"', res.out)
 
 
+def check_pinned_env(run):
+    """Likewise for interpret with a caller environment: with the root never
+    detached (the pinned interpret) TLC must find an interpreter resolving
+    names through a session that is not its own / through a cycle."""
+    res = run_tlc("Session", "Session_pinnedenv", workers=4, allow_violation=True, timeout=900)
+    run.add_tlc(res, "Session with DetachCallerEnv=FALSE (pinned interpret): counterexample expected")
+    if res.ok or "Invariant SessionsIsolated is violated" not in res.out:
+        raise MachineryError("Session_pinnedenv: TLC did not find the expected counterexample")
+    return re.findall(r'op \|-> "(env\w+)", i \|-> "(\w+)", n \|-> "\w*", v \|-> 0, id \|-> "(\w+)"', res.out)
+
+
 def run_walk_job(job, d):
     """The walk runs in a fresh, small process: forking it is cheap."""
     import subprocess
@@ -840,6 +964,8 @@ def run(run):
     info = {}
     reqs = check_pinned(run)
     info["pinned_counterexample"] = "require %s twice" % (reqs[0] if reqs else "?")
+    envs = check_pinned_env(run)
+    info["pinned_env_counterexample"] = " ; ".join(f"{i}: {op} ({e} environment)" for op, i, e in envs[:4])
 
     def go(cfg, interps, label, *modes):
         """modes: (name, mode, params)"""
@@ -898,19 +1024,18 @@ def replay_history(run, case, verdict_cats, prefix):
         prev = None
         for k, (c, o, b) in enumerate(case["path"]):
             src = cmd_source(c, b)
-            got, raw = sess.run(c["i"], src)
+            got, raw = sess.run(c["i"], src, sess.caller_env(c))
             want = want_outcome(o)
             last = k == len(case["path"]) - 1
-            finds = compare_outcome(c["i"] + ": " + src, got, raw, want, c, prev)
+            finds = compare_outcome(cmd_label(c, b), got, raw, want, c, prev)
             prev = (c, raw)
             if last and case.get("obs") is not None:
-                for i in interps:
-                    finds += observe(sess, i, case["obs"][i])
-                    if case.get("key") is not None:
-                        finds += diagnostics(sess, i, case["key"], case.get("loadcap", 1))
+                finds += state_findings(sess, interps, case["obs"], case.get("key"), case.get("loadcap", 1))
             for cat, what in finds:
                 if cat in verdict_cats:
                     run.violation(f"{prefix}:replay:{cat}:{what}", f"{cat}: {what}", case)
+            if sess.cyclic():
+                break
     finally:
         shutil.rmtree(d, ignore_errors=True)
 
